@@ -42,7 +42,7 @@ ASSUMPTIONS = [
     "bounded response: a data packet starts at most 2 cycles after the IN request; ERDY is requested at most 2 cycles "
     "after data is available and the generator is ready",
 ]
-BOUNDS = "BMC from reset, K=22 (quick) / K=30 (thorough); all stream/host/link/generator timing inputs free"
+BOUNDS = "BMC from reset, K=14 (quick) / K=20 (thorough); all stream/host/link/generator timing inputs free"
 OUTSIDE = "ep_reset; bursts (NumP > 1 treated as 1); packet sizes other than 8; more than 4 queued packets; the real " \
           "link layer and TransactionPacketGenerator (their contracts are C45 and the link properties)"
 
@@ -347,7 +347,7 @@ class SSInHarness(Harness):
 
 def queries(tier):
     f = SSInHarness
-    K = 22 if tier == "quick" else 30
+    K = 14 if tier == "quick" else 20
     return [
         Query("bmc_free", f, K, timeout=600, desc="stream, host, link and generator timing free every cycle"),
         Query("cosim", f, 0, kind="cosim", cosim_cycles=200 if tier == "quick" else 1000),
